@@ -47,9 +47,7 @@ mod dev_input_rw {
     fn send_one() {
       assert!(size_of::<input_event>() == REC);
       let code: u16 = kani::any();
-      let lo: u16 = kani::any(); let hi: u16 = kani::any();
-      kani::assume(lo <= code && code <= hi);
-      #[cfg(window)] kani::assume(lo == WINDOW_LO && hi == WINDOW_HI);
+      #[cfg(window)] kani::assume(crate::WINDOW_LO <= code && code <= crate::WINDOW_HI);
       let k = known(code);
       kani::assume(k.is_some());
       let k = k.unwrap();
@@ -116,7 +114,7 @@ mod dev_input_rw {
       let type_ = u16::from_ne_bytes([rec[16], rec[17]]);
       let code = u16::from_ne_bytes([rec[18], rec[19]]);
       let value = i32::from_ne_bytes([rec[20], rec[21], rec[22], rec[23]]);
-      #[cfg(window)] kani::assume(WINDOW_LO <= code && code <= WINDOW_HI);
+      #[cfg(window)] kani::assume(crate::WINDOW_LO <= code && code <= crate::WINDOW_HI);
       let mut r = DevInputReader { fd: 5 };
       let got = r.next();
       assert!(got.is_ok());
@@ -138,6 +136,8 @@ mod dev_input_rw {
     }
   }
 }
-#[cfg(window)] const WINDOW_LO: u16 = include!(concat!(env!("OUT_DIR_WINDOW"), "/lo.txt"));
-#[cfg(window)] const WINDOW_HI: u16 = include!(concat!(env!("OUT_DIR_WINDOW"), "/hi.txt"));
+// quick tier: the code domain is restricted to a seeded window [VERIF_WINDOW_LO, VERIF_WINDOW_HI] (bounded stand-in, labelled as such)
+const fn parse_u16(s: &str) -> u16 { let b = s.as_bytes(); let mut i = 0; let mut v: u16 = 0; while i < b.len() { v = v * 10 + (b[i] - b'0') as u16; i += 1; } v }
+#[cfg(window)] const WINDOW_LO: u16 = parse_u16(env!("VERIF_WINDOW_LO"));
+#[cfg(window)] const WINDOW_HI: u16 = parse_u16(env!("VERIF_WINDOW_HI"));
 fn main() {}
